@@ -417,7 +417,10 @@ pub fn run_limited(args: &[&str], cwd: &Path, as_kib: u64, timeout_s: u64) -> Li
     use std::process::{Command, Stdio};
     let t0 = Instant::now();
     let mut cmd = Command::new("bash");
-    if crate::c01::valgrind() {
+    if std::env::var("VH_NO_RLIMIT").is_ok() && !crate::c01::valgrind() {
+        // sanitizer builds reserve terabytes of address space: no RLIMIT_AS in that stage
+        cmd.arg("-c").arg("ulimit -c 0; exec \"$0\" \"$@\"").arg(copia_bin()).args(args);
+    } else if crate::c01::valgrind() {
         // memcheck needs far more address space than the limit under test: no RLIMIT_AS in this stage
         cmd.arg("-c").arg("ulimit -c 0; exec valgrind -q --error-exitcode=97 --errors-for-leak-kinds=none --leak-check=no \"$0\" \"$@\"").arg(copia_bin()).args(args);
     } else {
